@@ -9,6 +9,35 @@ pub trait WriterTo {
     fn write_to<W: Write>(&self, writer: &mut W) -> Result<()>;
 }
 
+/// Byte size of `dims[0] * dims[1] * ... * size_of::<i64>()` as announced by a
+/// deserialised header, or `None` if that product does not fit in `usize`.
+///
+/// Zero dimensions do not mask an overflow of the others, so that an accepted
+/// header can later be multiplied in any order without wrapping.
+pub(crate) fn checked_coeff_bytes(dims: &[usize]) -> Option<usize> {
+    let mut acc: usize = size_of::<i64>();
+    let mut zero: bool = false;
+    for &d in dims {
+        if d == 0 {
+            zero = true;
+        } else {
+            acc = acc.checked_mul(d)?;
+        }
+    }
+    Some(if zero { 0 } else { acc })
+}
+
+fn dims_overflow_err(what: &str) -> std::io::Error {
+    std::io::Error::new(
+        std::io::ErrorKind::InvalidData,
+        format!("{what} metadata inconsistent: dimensions overflow usize"),
+    )
+}
+
+pub(crate) fn checked_coeff_bytes_or_err(what: &str, dims: &[usize]) -> Result<usize> {
+    checked_coeff_bytes(dims).ok_or_else(|| dims_overflow_err(what))
+}
+
 /// Deserialize a layout type from a byte stream.
 ///
 /// The receiver must be pre-allocated with enough capacity to hold the
